@@ -61,6 +61,13 @@ def create_dict(**kwargs):
     return dictionary
 
 
+def _unitaries_of(nn_state):
+    # states that do not carry a unitary dictionary of their own (positive
+    # wavefunctions) are rotated with the default one
+    unitary_dict = getattr(nn_state, "unitary_dict", None)
+    return unitary_dict if unitary_dict else create_dict()
+
+
 def _kron_mult(matrices, x):
     n = [m.size()[0] for m in matrices]
     l, r = np.prod(n), 1  # noqa: E741
@@ -109,7 +116,7 @@ def rotate_psi(nn_state, basis, space, unitaries=None, psi=None):
         else psi.to(dtype=torch.double, device=nn_state.device)
     )
 
-    unitaries = unitaries if unitaries else nn_state.unitary_dict
+    unitaries = unitaries if unitaries else _unitaries_of(nn_state)
     unitaries = {k: v.to(device=nn_state.device) for k, v in unitaries.items()}
     us = [unitaries[b] for b in basis]
     return _kron_mult(us, psi)
@@ -140,7 +147,7 @@ def rotate_rho(nn_state, basis, space, unitaries=None, rho=None):
         else rho.to(dtype=torch.double, device=nn_state.device)
     )
 
-    unitaries = unitaries if unitaries else nn_state.unitary_dict
+    unitaries = unitaries if unitaries else _unitaries_of(nn_state)
     unitaries = {k: v.to(device=nn_state.device) for k, v in unitaries.items()}
     us = [unitaries[b] for b in basis]
 
@@ -152,7 +159,7 @@ def rotate_rho(nn_state, basis, space, unitaries=None, rho=None):
 
 # TODO: make this a generator function
 def _rotate_basis_state(nn_state, basis, states, unitaries=None):
-    unitaries = unitaries if unitaries else nn_state.unitary_dict
+    unitaries = unitaries if unitaries else _unitaries_of(nn_state)
     unitaries = {k: v.to(device="cpu") for k, v in unitaries.items()}
 
     basis = np.array(list(basis))
